@@ -428,8 +428,19 @@ fn run_seq(sc: &Scenario, sid: u64) -> SeqOutcome {
                 match outcome_of(&m) {
                     Out::Err(_) if sc.handler => {
                         let wanth = handlers + 1;
-                        if let Err(st) = await_log(&sh, |st| st.log.iter().filter(|e| matches!(e, Ev::Handler { .. })).count() >= wanth) {
+                        // logical evidence that the handler was skipped: the worker has moved on past the failed metric
+                        // (next schedule point / next metric entered) without calling it
+                        let moved_on = |st: &St| {
+                            let last_exit = st.log.iter().rposition(|e| matches!(e, Ev::Exit { .. })).unwrap_or(0);
+                            st.log[last_exit..].iter().any(|e| matches!(e, Ev::Point { name: "queuing.run.wait", .. } | Ev::Point { name: "queuing.run.taken", .. } | Ev::Enter { .. }))
+                        };
+                        if let Err(st) = await_log(&sh, |st| st.log.iter().filter(|e| matches!(e, Ev::Handler { .. })).count() >= wanth || moved_on(st)) {
                             stuck!(st, "handler");
+                            break 'ops;
+                        }
+                        if sh.count(|e| matches!(e, Ev::Handler { .. })) < wanth {
+                            viol.push(V { props: vec!["C16"], rule: "R8", class: "handler-never-called".into(), detail: format!("the wrapped sink failed for {} and the worker went on to its next step without calling the configured handler", m) });
+                            aborted = true;
                             break 'ops;
                         }
                         handlers += 1;
@@ -1090,6 +1101,7 @@ fn main() {
             }
         }
     }
+    rep.lock().unwrap_or_else(|e| e.into_inner()).obs("proc_listings_that_missed_a_live_thread", procmon::SCAN_GLITCHES.load(std::sync::atomic::Ordering::Relaxed));
     let code = rep.lock().unwrap_or_else(|e| e.into_inner()).finish(args.get("out"));
     std::process::exit(code);
 }
